@@ -65,6 +65,14 @@ def corr(rep: C.Report, tier: str):
                 lim = q["wallThickness"] * (0.5 + cur["smoothing"]) / cur["ratioPointsWall"]
                 tin = round((lim * 1.5 + 0.1) * 64) / 64 + 1 / 64
                 tout = round((lim * 2.5 + 0.1) * 64) / 64 + 1 / 64
+                mode = r.random()
+                if mode < 0.25:         # pure translation of the wall: same three lengths, new centre
+                    tin, tout, q["wallThickness"] = cur["tailLengthInside"], cur["tailLengthOutside"], cur["wallThickness"]
+                elif mode < 0.35:       # only one length changes
+                    tout, q["wallThickness"] = cur["tailLengthOutside"], cur["wallThickness"]
+                    tin = cur["tailLengthInside"] + 1 / 64
+                elif mode < 0.4:        # identical call repeated
+                    tin, tout, q["wallThickness"], q["wallCenter"] = cur["tailLengthInside"], cur["tailLengthOutside"], cur["wallThickness"], cur["wallCenter"]
                 g.changePositionFalloffScale(tin, tout, q["wallThickness"], q["wallCenter"])
                 cur.update(tailLengthInside=tin, tailLengthOutside=tout, wallThickness=q["wallThickness"], wallCenter=q["wallCenter"])
                 lines.append(f"pos {fr(tin)} {fr(tout)} {fr(q['wallThickness'])} {fr(q['wallCenter'])}")
